@@ -29,10 +29,22 @@ class Ob:
     file: str = ""
     line: int = 0
     path: list = field(default_factory=list)
+    unrecognised: bool = False   # failed only because no recognised idiom was found (all template misses were far misses)
+    near: float = 1.0
 
     @property
     def key(self) -> str:
         return f"{self.rule}|{self.construct}|{self.detail}"
+
+
+# a failed template obligation is a violation when the code is recognisably the idiom and deviates in a sub-term (>= NEAR of the
+# template's nodes match at the closest candidate); below that the construct is outside the recognised idioms: analysis-broken
+NEAR = float(os.environ.get("VERIF_NEAR", "0.75"))
+
+
+import re as _re
+
+_NOTHING_FOUND = _re.compile(r"^\s*(\[\]|\{\}|\(\)|None|set\(\)|\[\] \[\]|\[\] \{\}|\{\} \[\])\s*$|\bnot found\b|^0 blocks|\bcalls \[\]|\bdispatched \[\]|: \[\]$|^products \[\]")
 
 
 class Ctx:
@@ -54,6 +66,19 @@ class Ctx:
         if node is not None and not file:
             file = getattr(node, "_file", "")
         o = Ob(rule, construct, detail, bool(ok), msg, file, line, path or [])
+        from . import amatch
+
+        misses = amatch.take_misses()
+        if not ok and misses:
+            o.near = max(sc for sc, _, _ in misses)
+            if o.near < NEAR:
+                o.unrecognised = True
+                far = max(misses, key=lambda x: x[0])
+                o.msg = (o.msg + f" [no recognised idiom: best match of `{far[1][:70]}` covers {far[0]:.0%} of it]").strip()
+        if not ok and not misses and _NOTHING_FOUND.search(msg or ""):
+            # the extractor found nothing to judge (empty list / "not found"): the construct has no recognised shape any more
+            o.unrecognised = True
+            o.msg = (o.msg + " [nothing extracted: the construct is not in a recognised shape]").strip()
         self.obs.append(o)
         return bool(ok)
 
@@ -105,6 +130,8 @@ def finish(ctx: Ctx, t0: float, level: str, seed: int, extra_cov=None, write=Tru
         k["key"]: k for k in known.get("known", []) if k.get("property") == ctx.prop
     }
     failed = [o for o in ctx.obs if not o.ok]
+    unrec = [o for o in failed if o.unrecognised]
+    failed = [o for o in failed if not o.unrecognised]
     new, listed = [], []
     seen = set()
     for o in failed:
@@ -116,6 +143,11 @@ def finish(ctx: Ctx, t0: float, level: str, seed: int, extra_cov=None, write=Tru
         print(f"KNOWN-FINDING: property={ctx.prop} {o.key} :: {known_keys[o.key].get('what', o.msg)}")
     for n in ctx.notes:
         print(f"NOTE: {n}")
+    for o in unrec[:20]:
+        print(f"UNRECOGNISED property={ctx.prop} rule={o.rule} {o.file}:{o.line} construct={o.construct} detail={o.detail} :: {o.msg}")
+    if unrec and not new:
+        raise AnalysisError(f"{len(unrec)} obligation(s) could not be decided: the code at {unrec[0].construct} no longer has a shape the rule {unrec[0].rule} recognises "
+                            f"({unrec[0].detail[:80]}); the rule needs re-confirmation against the new code")
     replay = None
     if new:
         os.makedirs(os.path.join(VERIF, "replay"), exist_ok=True)
